@@ -445,6 +445,42 @@ def rw_R19_join(text, log, where):
         text = text[:k] + new + text[m.end():]
 
 
+def rw_R22_bestmove(text, log, where):
+    """the bestmove line: self.log(format!("bestmove {}", E).as_str()) / format!("bestmove {x}") -> self.log_bestmove(Some(E));
+    self.log("bestmove 0000") -> self.log_bestmove(None).  Keeps the printed move visible to the contract (R3 would hide it)."""
+    while True:
+        masked = mask_code(text)
+        m = re.search(r'self\s*\.\s*log\s*\(\s*format!\s*\(', masked)
+        if not m:
+            break
+        o = m.end() - 1
+        c = match_close(masked, o)
+        args = split_top_commas(text[o + 1:c])
+        lit = args[0]
+        if not lit.startswith('"bestmove'):
+            break
+        mm = re.match(r'"bestmove \{([a-z_][a-z_0-9]*)?\}"$', lit)
+        if not mm:
+            raise ExtractError('R22: unexpected bestmove format in %s: %s' % (where, lit))
+        if mm.group(1):
+            expr = mm.group(1)
+        elif len(args) == 2:
+            expr = args[1]
+        else:
+            raise ExtractError('R22: unexpected bestmove arguments in ' + where)
+        # closing of self.log( ... )
+        lo = masked.index('(', m.start())
+        lc = match_close(masked, lo)
+        new = 'self.log_bestmove(Some(%s))' % expr
+        log.append({'rule': 'R22', 'where': where, 'before': text[m.start():lc + 1], 'after': new})
+        text = text[:m.start()] + new + text[lc + 1:]
+    rx = re.compile(r'self\s*\.\s*log\s*\(\s*"bestmove 0000"\s*\)')
+    if rx.search(text):
+        log.append({'rule': 'R22', 'where': where, 'before': 'self.log("bestmove 0000")', 'after': 'self.log_bestmove(None)'})
+        text = rx.sub('self.log_bestmove(None)', text)
+    return text
+
+
 def rw_R9_is_some_and(text, log, where):
     while True:
         masked = mask_code(text)
@@ -603,16 +639,7 @@ def rw_R13_oncelock(body, log, where, table):
 
 
 def apply_text_rules(text, log, where, opts):
-    text = rw_R3_format(text, log, where)
-    text = rw_panic_args(text, log, where)
-    text = rw_assert_msg(text, log, where)
-    text = rw_R9_is_some_and(text, log, where)
-    text = rw_R16_position(text, log, where)
-    text = rw_R17_map_or_else(text, log, where)
-    text = rw_R18_to_strings(text, log, where)
-    text = rw_R19_join(text, log, where)
-    text = rw_R14_closure_underscore(text, log, where)
-    text = rw_R1_for_array(text, log, where)
+    # explicit substitutions of the unit (closed list in the template) come first
     for before, after in opts.get('subst', []):
         rx = re.compile(ws_regex(before))
         if not rx.search(text):
@@ -626,6 +653,17 @@ def apply_text_rules(text, log, where, opts):
         if n:
             log.append({'rule': 'Rsub', 'where': where, 'before': before, 'after': after, 'count': n})
             text = rx.sub(lambda m: after, text)
+    text = rw_R22_bestmove(text, log, where)
+    text = rw_R3_format(text, log, where)
+    text = rw_panic_args(text, log, where)
+    text = rw_assert_msg(text, log, where)
+    text = rw_R9_is_some_and(text, log, where)
+    text = rw_R16_position(text, log, where)
+    text = rw_R17_map_or_else(text, log, where)
+    text = rw_R18_to_strings(text, log, where)
+    text = rw_R19_join(text, log, where)
+    text = rw_R14_closure_underscore(text, log, where)
+    text = rw_R1_for_array(text, log, where)
     return text
 
 
